@@ -103,6 +103,25 @@ def run(ctx):
     for k, w in enumerate(corpus):
         pre.append({'ids': w['ids'], 'version': 33, 'edition': 4, 'nsub': 3, 'compressed': False,
                     'forced': w['forced'], 'seed': 1000 + k, 'maxrep': 3, 'features': {'corpus': 1}, 'shared': False})
+    # subsets whose delayed replication counts DIFFER but give the same number of elements before the bitmap and the same
+    # bitmap length: the back-referenced descriptors differ from subset to subset at the same positions (anything
+    # remembered about them from an earlier subset is wrong for the next one)
+    rng = ctx.rng
+    for k in range(ctx.n(16, 200)):
+        a, b2, c3 = rng.sample([12001, 10004, 11001, 7001, 1001, 20003, 13003], 3)
+        op = rng.choice([223, 224, 225, 232, 222])
+        m = rng.choice([2, 3])
+        sig = [8023] if op == 224 else [8024] if op == 225 else []
+        tail = [33007] * m if op == 222 else sig + [op * 1000 + 255] * m
+        ids = [a, 101000, 31001, b2, 101000, 31001, c3, op * 1000, 236000, 101000 + m, 31031] + tail
+        nsub = rng.choice([2, 3, 4])
+        tot = rng.choice([2, 3])
+        variants = []
+        for j in range(nsub):
+            n1 = (j + k) % (tot + 1)
+            variants.append('31001=%d.%d;31031=%s' % (n1, tot - n1, '.'.join(['0'] * m)))
+        pre.append({'ids': ids, 'version': 33, 'edition': 4, 'nsub': nsub, 'compressed': False, 'forced': '||'.join(variants),
+                    'seed': rng.randrange(1, 2 ** 32), 'maxrep': 3, 'features': {'same-boundary-different-layout': 1}, 'shared': False})
     cases = pre + cases
     P.attach_templates(cases)
     P.run_gen(cases)
